@@ -122,6 +122,25 @@ def check_one(m_abs, trailer: bytes, shared_options: bool = False, enc=None):
             out.append((f"harness:{op}", "abstract(build(a)) != a (harness defect)"))
     except Exception as e:
         out.append((f"abstract-exc:{op}", f"{type(e).__name__}: {e}"))
+    # the caller edits the message it encoded (lists are the caller's own objects) and encodes it again: the second
+    # encoding is that of the edited value, i.e. nothing about the first encoding was remembered on the object
+    try:
+        extra = ("1.2.3.4.5", True, b"added-after-pack", None)
+        m.controls.append(av.b_control(extra))
+        edited = (m_abs[0], m_abs[1], m_abs[2], tuple(m_abs[3]) + (extra,))
+        if op == "SearchRequest":
+            m.attributes.append("addedAfterPack")
+            edited = (edited[0], edited[1], edited[2][:7] + (tuple(edited[2][7]) + ("addedAfterPack",),), edited[3])
+        elif op == "SearchResultReference":
+            m.uris.append("ldap://added-after-pack/")
+            edited = (edited[0], edited[1], (tuple(edited[2][0]) + ("ldap://added-after-pack/",),), edited[3])
+        elif op == "SearchResultEntry":
+            m.attributes.append(sl.PartialAttribute("addedAfterPack", [b"v"]))
+            edited = (edited[0], edited[1], (edited[2][0], tuple(edited[2][1]) + (("addedAfterPack", (b"v",)),)), edited[3])
+        if m.pack(opts) != av.build(edited).pack(opts):
+            out.append(("stale-encoding-after-edit:" + op, "a message edited after it had been encoded once encodes differently from a new message with the same fields"))
+    except Exception as e:
+        out.append((f"edit-after-pack-exc:{op}:{norm_msg(e)}", f"{type(e).__name__}: {e}"))
     try:
         data2 = m2.pack(mk_options(enc))
         if data2 != data:
